@@ -347,8 +347,20 @@ func main() {
 				}
 			}
 		}
-		macs := [][]byte{bytes.Repeat([]byte{0}, 32), bytes.Repeat([]byte{0xff}, 32), func() []byte { b := make([]byte, 32); for i := range b { b[i] = byte(i) }; return b }()}
-		body := func(n int) []byte { b := make([]byte, n); for i := range b { b[i] = byte(i*31 + 7) }; return b }
+		macs := [][]byte{bytes.Repeat([]byte{0}, 32), bytes.Repeat([]byte{0xff}, 32), func() []byte {
+			b := make([]byte, 32)
+			for i := range b {
+				b[i] = byte(i)
+			}
+			return b
+		}()}
+		body := func(n int) []byte {
+			b := make([]byte, n)
+			for i := range b {
+				b[i] = byte(i*31 + 7)
+			}
+			return b
+		}
 		k := 0
 		for ch := 33; ch <= 126; ch++ {
 			s := string(rune(ch))
@@ -406,9 +418,14 @@ func main() {
 	})
 }
 
-
 func validHeaders(mac string) [][]byte {
-	body := func(n int) []byte { b := make([]byte, n); for i := range b { b[i] = byte(i*13 + 1) }; return b }
+	body := func(n int) []byte {
+		b := make([]byte, n)
+		for i := range b {
+			b[i] = byte(i*13 + 1)
+		}
+		return b
+	}
 	m := body(32)
 	hs := []*refage.Header{
 		{Stanzas: []refage.Stanza{{Type: "X25519", Args: []string{refage.B64(body(32))}, Body: body(32)}}, MAC: m},
